@@ -298,7 +298,7 @@ func childMain(args []string) {
 // goroutines started a few microseconds apart.  Every goroutine must report the
 // same error, backtrace and step count as a sequential execution.
 func sharedStress(enc *json.Encoder, g int) {
-	const nfuncs, lines, trials = 80, 300, 250
+	const nfuncs, lines, trials = 80, 300, 600
 	var b strings.Builder
 	for k := nfuncs - 1; k >= 0; k-- {
 		fmt.Fprintf(&b, "def chain_function_%d(flag):\n    if flag:\n", k)
